@@ -37,7 +37,11 @@ func c10HasCycle(edge [3][3]bool) bool {
 	return r[0][0] || r[1][1] || r[2][2]
 }
 
+// a second file some scenarios add
+var c10Later map[string]any
+
 func VerifC10Consistency() {
+	c10Later = nil
 	doc := c10Base()
 	svcs := doc["services"].(map[string]any)
 	a := svcs["a"].(map[string]any)
@@ -81,7 +85,17 @@ func VerifC10Consistency() {
 	case 5: // depends_on target: enabled / disabled by profile / undefined, required or not
 		k := vrtChoice("target", 3)
 		req := vrtChoice("required", 2) == 1
-		a["depends_on"] = map[string]any{[]string{"b", "d", "zz"}[k]: map[string]any{"condition": "service_started", "required": req}}
+		target := []string{"b", "d", "zz"}[k]
+		a["depends_on"] = map[string]any{target: map[string]any{"condition": "service_started", "required": req}}
+		// a later file may declare the dependency again, in short form (which means required) or with the other flag
+		switch vrtChoice("redeclaredLater", 3) {
+		case 1:
+			c10Later = map[string]any{"services": map[string]any{"a": map[string]any{"depends_on": []any{target}}}}
+			req = true
+		case 2:
+			req = !req
+			c10Later = map[string]any{"services": map[string]any{"a": map[string]any{"depends_on": map[string]any{target: map[string]any{"condition": "service_started", "required": req}}}}}
+		}
 		bad = k == 2 || (k == 1 && req)
 	case 6: // network_mode service:X, and network_mode together with networks
 		k := vrtChoice("target", 3)
@@ -304,7 +318,12 @@ func VerifC10Consistency() {
 	// (observations are not recorded under a perturbed order: natively the order is random)
 	order := []int{0, 1, 3, 4}[vrtChoice("maporder", 4)]
 	vrtMapOrder(order)
-	p, err := tcLoadProject(nil, nil, doc)
+	docs := []map[string]any{doc}
+	if c10Later != nil {
+		docs = append(docs, c10Later)
+		c10Later = nil
+	}
+	p, err := tcLoadProject(nil, nil, docs...)
 	vrtMapOrder(0)
 	if order == 0 {
 		vrtObserve("err", err != nil)
